@@ -4,7 +4,7 @@
     controller goroutine (Pause, Schedule at CurrentTime()+d ..., Continue — what a
     monitor does) and EVERY scheduler oracle (goroutine interleaving). *)
 From Coq Require Import Permutation.
-From Akita Require Import Lib.Base Lib.Lts C04.Model C04.Proofs1 C04.Proofs2 C04.Proofs2b C04.Proofs3 C04.Proofs4 C04.Proofs5 C04.Proofs6.
+From Akita Require Import Lib.Base Lib.Lts C04.Model C04.Proofs1 C04.Proofs2 C04.Proofs2b C04.Proofs3 C04.Proofs4 C04.Proofs5 C04.Proofs6 C04.Proofs7.
 Local Open Scope N_scope.
 
 (** Exactly once: at every moment scheduled = handled + live (spawned or executing
@@ -57,7 +57,9 @@ Proof. intros prog nq init script o s' H Hc. exact (par_secondary_round_clean pr
 Print Assumptions c04_secondary_round_clean.
 
 (** Link to the deterministic [rounds] function used by the tie.
-    FULL STATEMENT (not yet proved): for every interleaving without a controller, the
+    The FULL STATEMENT is now proved without a controller: c04_rounds_schedule_independent
+    below.  This theorem remains as the part that also holds WITH a controller.
+    Full statement: for every interleaving without a controller, the
     sequence of rounds of the LTS — (time, phase, set of members) — equals
     [rounds fuel prog init], i.e. the pending multiset at the n-th round boundary is
     the n-th iterate of [next_pending] on [init].
@@ -101,6 +103,69 @@ Theorem c04_queue_accounting : forall prog nq init o, (1 <= nq)%nat ->
   G1 s /\ (e_pc s = EScan 0 -> chan (e_sec s) s = [] /\ held (e_sec s) (e_ws s) = []).
 Proof. intros prog nq init o H. exact (queue_accounting prog nq init o H). Qed.
 Print Assumptions c04_queue_accounting.
+
+(** Schedule-independence of the round composition (no controller), for EVERY
+    interleaving and every number of queues: in every reachable state with n rounds
+    started,
+    - the (time, phase) sequence of the rounds is that of the deterministic iteration
+      P_0 = init, P_(k+1) = next_pending P_k  (= the iteration inside [rounds]);
+    - at a round boundary the pending multiset is exactly P_n;
+    - once the scan of round n is over, the popped events (the handlers the round runs)
+      are exactly [members P_(n-1)] as a multiset;
+    - when Run has returned, P_n = [] and the whole history is [rounds f prog init]
+      (the function the tie compares the observed round segments with), for any f >= n.
+    Proof: simulation invariant WI = per-queue snapshot (unscanned queues of the round's
+    kind are untouched since determineWhatToRun; popped = leading time-now runs of the
+    scanned snapshot queues) + queue accounting / channel discipline (a queue of the
+    round's kind reaches Schedule only after it was scanned, so an event scheduled during
+    a round is never popped in it) + child conservation (queued + popped + still-to-
+    schedule = P + children of popped).
+
+    HYPOTHESIS BUILT INTO THE MODEL: the events a handler schedules are a function of
+    the handled event alone ([kids prog e]); a handler neither reads nor writes state
+    shared with handlers running in the same round.  The statement concerns exactly
+    such handlers.  Real akita handlers of one component share that component's state,
+    and handlers of different components communicate through ports: if two events of
+    one round touch common state, WHAT they schedule may depend on the order in which
+    the goroutines run, and then the round composition is schedule-dependent — the
+    engine offers no ordering inside a round.  This is the same root as the known
+    finding F-C04-1 (sibling_secondary_corner): inside one round there is no order
+    between siblings, so a same-instant primary scheduled by one secondary is not
+    ordered before its sibling secondaries; schedule-independence of the rounds holds
+    for handlers that are functions of their event, and F-C04-1 is the phase-order
+    symptom that remains even for those. *)
+Theorem c04_rounds_schedule_independent : forall prog nq init o, (1 <= nq)%nat ->
+  let s := e_run prog o (e_init_ctl nq init []) in
+  let n := length (e_rounds s) in
+  rev (e_rounds s) = map (fun k => choice (iter prog k init)) (seq 0 n) /\
+  (rpc (e_pc s) = false -> Permutation (queued s) (iter prog n init)) /\
+  (e_pc s = EWait -> Permutation (map fst (e_ws s)) (members (iter prog (n - 1) init))) /\
+  (e_pc s = EDone -> iter prog n init = [] /\
+     forall f, (n <= f)%nat -> rounds f prog init = map (fun k => round_of (iter prog k init)) (seq 0 n)).
+Proof. intros prog nq init o H. exact (rounds_schedule_independent prog nq init H o). Qed.
+Print Assumptions c04_rounds_schedule_independent.
+
+(** Consequence: two arbitrary schedules that both run to completion have performed
+    the same rounds, and both equal [rounds] on the initial events. *)
+Theorem c04_two_schedules_same_rounds : forall prog nq init o1 o2, (1 <= nq)%nat ->
+  let s1 := e_run prog o1 (e_init_ctl nq init []) in
+  let s2 := e_run prog o2 (e_init_ctl nq init []) in
+  e_pc s1 = EDone -> e_pc s2 = EDone ->
+  e_rounds s1 = e_rounds s2 /\
+  rounds (length (e_rounds s1)) prog init = map (fun k => round_of (iter prog k init)) (seq 0 (length (e_rounds s1))).
+Proof.
+  intros prog nq init o1 o2 H s1 s2 H1 H2.
+  destruct (rounds_schedule_independent prog nq init H o1) as [A1 [_ [_ D1]]].
+  destruct (rounds_schedule_independent prog nq init H o2) as [A2 [_ [_ D2]]].
+  fold s1 in A1, D1. fold s2 in A2, D2. destruct (D1 H1) as [E1 R1]. destruct (D2 H2) as [E2 R2].
+  assert (Hlen : length (e_rounds s1) = length (e_rounds s2)).
+  { pose proof (R1 (max (length (e_rounds s1)) (length (e_rounds s2))) ltac:(lia)) as X1.
+    pose proof (R2 (max (length (e_rounds s1)) (length (e_rounds s2))) ltac:(lia)) as X2.
+    rewrite X1 in X2. apply (f_equal (@length _)) in X2. rewrite !map_length, !seq_length in X2. exact X2. }
+  split; [|apply R1; lia].
+  rewrite <- (rev_involutive (e_rounds s1)), <- (rev_involutive (e_rounds s2)), A1, A2, Hlen. reflexivity.
+Qed.
+Print Assumptions c04_two_schedules_same_rounds.
 
 (** The phase guarantee over whole executions: whenever a secondary starts, every
     scheduled-and-unfinished primary of its instant was scheduled by a secondary
